@@ -69,6 +69,12 @@ def _guarded(args):
     except _CaseTimeout:
         return {"hash": _hash(["timeout", fn.__name__, job]), "nontrivial": True, "sample": None, "outcome": "timeout",
                 "failures": [{"key": "case.timeout", "text": "%s%r: a call into the package did not return within %g s (solve() and batt_life() must terminate)" % (fn.__name__, tuple(job) if isinstance(job, (list, tuple)) else job, CASE_TIMEOUT_S), "props": ["C03", "C18"]}]}
+    except Exception:
+        # an exception escaping a case is a fault of that case's harness (never a violation); it must not take the verdicts of
+        # the other cases and of the P layer with it: recorded, reported as CHECKER-FAULT unless a violation is reported anyway
+        import traceback
+        return {"hash": _hash(["crash", fn.__name__, job]), "nontrivial": False, "sample": None, "outcome": "harness-crash", "failures": [],
+                "crash": "%s%r: %s" % (fn.__name__, tuple(job) if isinstance(job, (list, tuple)) else job, traceback.format_exc()[-600:])}
     finally:
         signal.setitimer(signal.ITIMER_REAL, 0)
         signal.signal(signal.SIGALRM, old)
@@ -90,6 +96,7 @@ def run_pool(fn, jobs, nproc=None):
 
 def summarize(results, rule, bound):
     seen, dn, fails, samples, outcomes = set(), 0, [], [], {}
+    crashes = [r["crash"] for r in results if r.get("crash")]
     for r in results:
         if r["hash"] not in seen:
             seen.add(r["hash"])
@@ -97,7 +104,8 @@ def summarize(results, rule, bound):
         fails.extend(r["failures"])
         if r.get("sample"): samples.append(r["sample"])
         outcomes[r.get("outcome")] = outcomes.get(r.get("outcome"), 0) + 1
-    return {"evaluations": len(results), "distinct_nontrivial": dn, "failures": fails, "samples": samples, "rule": rule, "bound": bound, "outcomes": {str(k): v for k, v in outcomes.items()}}
+    return {"evaluations": len(results), "distinct_nontrivial": dn, "failures": fails, "samples": samples, "rule": rule, "bound": bound, "outcomes": {str(k): v for k, v in outcomes.items()},
+            **({"crashes": crashes[:5]} if crashes else {})}
 
 
 def table_family(seed, n, opts, props, solve_kw=None, label="table"):
